@@ -1,5 +1,6 @@
 import SvModel.Core.Pp
 import SvModel.Gen.PpConsts
+import SvModel.Gen.PpArms
 /-!
 # The constants the hand-written walker model repeats are the constants of the source (T-gen for C04, C09, C11)
 
@@ -21,5 +22,40 @@ theorem C11_svcov_from_source : svCovDefines = Gen.svCovSrc := rfl
 /-- `isPredefined` of the model accepts exactly the names `is_predefined_text_macro` accepts -/
 theorem C04_predefined_from_source (s : Bytes) : isPredefined s = Gen.predefinedSrc.contains s := by
   simp only [isPredefined, Gen.predefinedSrc, bLINE, bFILE, List.contains_cons, List.contains_nil, Bool.or_false]
+
+
+/-- **the event loop of the source has exactly the arms the walker model was transliterated from**, in this order and with these guards:
+    block 1 (`skipStep`: every Enter / Leave), `if skip { continue; }`, block 2 (`lineStep`: Enter / Leave of SourceDescriptionNotDirective and
+    CompilerDirective), block 3 (`enterStep` / `leaveStep`): text, the two string-like SourceDescription variants, the eleven kept directives
+    (`PpKinds.kept`, Enter emits and sets skip_whitespace, Leave clears it), `undef, `undefineall, `ifdef, WhiteSpace (guard
+    `!skip_whitespace`), Comment, `ifndef, `define, `include (guard `!ignore_include`), macro usage, `__FILE__ / `__LINE__.
+    Regenerated from `preprocess.rs` on every run; an added, removed, re-ordered or re-guarded arm breaks this obligation. -/
+theorem Pp_arms_from_source :
+    Gen.ppArms = [
+      "Enter(x)", "Leave(x)",
+      "Enter(SourceDescriptionNotDirective)", "Enter(CompilerDirective)", "Leave(SourceDescriptionNotDirective)", "Leave(CompilerDirective)",
+      "Enter(SourceDescriptionNotDirective)", "Enter(SourceDescription::StringLiteral)", "Enter(SourceDescription::EscapedIdentifier)",
+      "Enter(ResetallCompilerDirective)", "Leave(ResetallCompilerDirective)",
+      "Enter(TimescaleCompilerDirective)", "Leave(TimescaleCompilerDirective)",
+      "Enter(DefaultNettypeCompilerDirective)", "Leave(DefaultNettypeCompilerDirective)",
+      "Enter(UnconnectedDriveCompilerDirective)", "Leave(UnconnectedDriveCompilerDirective)",
+      "Enter(NounconnectedDriveCompilerDirective)", "Leave(NounconnectedDriveCompilerDirective)",
+      "Enter(CelldefineDriveCompilerDirective)", "Leave(CelldefineDriveCompilerDirective)",
+      "Enter(EndcelldefineDriveCompilerDirective)", "Leave(EndcelldefineDriveCompilerDirective)",
+      "Enter(Pragma)", "Leave(Pragma)",
+      "Enter(LineCompilerDirective)", "Leave(LineCompilerDirective)",
+      "Enter(KeywordsDirective)", "Leave(KeywordsDirective)",
+      "Enter(EndkeywordsDirective)", "Leave(EndkeywordsDirective)",
+      "Enter(UndefineCompilerDirective)", "Leave(UndefineCompilerDirective)",
+      "Enter(UndefineallCompilerDirective)", "Leave(UndefineallCompilerDirective)",
+      "Enter(IfdefDirective)",
+      "Enter(WhiteSpace) if !skip_whitespace",
+      "Enter(Comment)",
+      "Enter(IfndefDirective)",
+      "Enter(TextMacroDefinition)",
+      "Enter(IncludeCompilerDirective) if !ignore_include",
+      "Enter(TextMacroUsage)",
+      "Enter(PositionCompilerDirective)"] ∧
+    Gen.ppMatchBlocks = 3 ∧ Gen.ppSkipContinue = 1 := ⟨rfl, rfl, rfl⟩
 
 end Sv
